@@ -28,11 +28,18 @@ func init() {
 }
 
 type drep struct {
-	idx    int
-	doc    orda.Document
-	dt     iface.Datatype
-	cursor int
-	cseq   uint64
+	idx     int
+	doc     orda.Document
+	dt      iface.Datatype
+	cursor  int
+	cseq    uint64
+	handles []dhandle // child documents obtained earlier and kept by the application
+}
+
+// a handle to a nested container, kept while the document changes
+type dhandle struct {
+	doc  orda.Document
+	desc string
 }
 
 type dworld struct {
@@ -394,6 +401,104 @@ func (r *drep) metaOpID() string {
 
 func (w *dworld) local(ri int) {
 	w.localWith(ri, w.rndCall(plainCopy(w.reps[ri].value())))
+	w.keepHandle(ri)
+}
+
+// keepHandle: the application keeps a child document of a nested container for later use
+func (w *dworld) keepHandle(ri int) {
+	r := w.reps[ri]
+	if w.c.Rng.Intn(2) != 0 || len(r.handles) >= 12 {
+		return
+	}
+	var cs [][]interface{}
+	containers(plainCopy(r.value()), nil, &cs)
+	var nested [][]interface{}
+	for _, c := range cs {
+		if len(c) >= 2 {
+			nested = append(nested, c)
+		}
+	}
+	if len(nested) == 0 {
+		return
+	}
+	path := nested[w.c.Rng.Intn(len(nested))]
+	if d, ok := walk(r.doc, path); ok {
+		r.handles = append(r.handles, dhandle{d, pathStr(path)})
+	}
+}
+
+// staleCall: a mutating call on a kept child document whose container has been deleted meanwhile (itself or through an
+// ancestor): C03 — it returns an error, changes nothing readable and adds nothing to the operations awaiting push
+func (w *dworld) staleCall(ri int) {
+	r := w.reps[ri]
+	var dead []dhandle
+	for _, h := range r.handles {
+		if h.doc.IsGarbage() {
+			dead = append(dead, h)
+		}
+	}
+	if len(dead) == 0 {
+		return
+	}
+	h := dead[w.c.Rng.Intn(len(dead))]
+	before := r.value()
+	hv := jsonStr(h.doc.GetValue())
+	nb := len(r.pending())
+	id := r.metaOpID()
+	var err error
+	var what string
+	p, msg := guarded(func() {
+		if h.doc.GetTypeOfJSON() == orda.TypeJSONArray {
+			switch w.c.Rng.Intn(3) {
+			case 0:
+				what = "InsertToArray(0,1)"
+				_, err = h.doc.InsertToArray(0, 1)
+			case 1:
+				what = "UpdateManyInArray(0,2)"
+				_, err = h.doc.UpdateManyInArray(0, 2)
+			default:
+				what = "DeleteInArray(0)"
+				_, err = h.doc.DeleteInArray(0)
+			}
+		} else {
+			if w.c.Rng.Intn(2) == 0 {
+				what = "PutToObject(zz,1)"
+				_, err = h.doc.PutToObject("zz", 1)
+			} else {
+				keys := []string{"zz"}
+				if m, ok := h.doc.GetValue().(map[string]interface{}); ok {
+					for k := range m {
+						keys = append(keys, k)
+					}
+					sort.Strings(keys)
+				}
+				k := keys[w.c.Rng.Intn(len(keys))]
+				what = fmt.Sprintf("DeleteInObject(%q)", k)
+				_, err = h.doc.DeleteInObject(k)
+			}
+		}
+	})
+	w.desc = append(w.desc, fmt.Sprintf("r%d: %s on a kept child document of %s whose container has been deleted", ri, what, h.desc))
+	if p {
+		w.c.Violate("C03", "panic-document", fmt.Sprintf("%s on a child document of a deleted container panicked: %s", what, msg), w.desc)
+		panic("document call panicked")
+	}
+	if isNilErr(err) {
+		w.c.Violate("C03", "deleted-container-call-accepted", fmt.Sprintf("%s on a child document (%s) whose container has been deleted returned no error", what, h.desc), w.desc)
+	}
+	if after := r.value(); !reflect.DeepEqual(after, before) {
+		w.c.Violate("C03", "deleted-container-call-changed-value", fmt.Sprintf("%s on a deleted container changed the document from %s to %s", what, jsonStr(before), jsonStr(after)), w.desc)
+	}
+	if hv2 := jsonStr(h.doc.GetValue()); hv2 != hv {
+		w.c.Violate("C03", "deleted-container-call-changed-value", fmt.Sprintf("%s on a deleted container changed what its child document reads from %s to %s", what, hv, hv2), w.desc)
+	}
+	if n := len(r.pending()); n != nb {
+		w.c.Violate("C03", "document-failed-call-left-operations", fmt.Sprintf("%s on a deleted container queued %d operations", what, n-nb), w.desc)
+	}
+	if id2 := r.metaOpID(); id2 != id {
+		w.c.Violate("C03", "deleted-container-call-consumed-id", fmt.Sprintf("%s on a deleted container moved the next operation identifier from %s to %s", what, id, id2), w.desc)
+	}
+	w.c.Count("doc-call-on-deleted-container")
 }
 
 func (w *dworld) localWith(ri int, cs dcall) {
@@ -780,6 +885,9 @@ func sliceDoc(c *Ctx) {
 			for s := 0; s < steps; s++ {
 				ri := c.Rng.Intn(nrep)
 				switch k := c.Rng.Intn(100); {
+				case k < 6:
+					w.cur = "local call"
+					w.staleCall(ri)
 				case k < 52:
 					w.cur = "local call"
 					w.local(ri)
